@@ -594,7 +594,7 @@ def cli_case(item, acc):
                 break
             have = [float(got[0]['x']), float(got[0]['y']), float(got[0]['z'])]
             checked += 1
-            if max(abs(h - w) for h, w in zip(have, want)) > 2.1e-3:
+            if not all(abs(h - w) <= 2.1e-3 for h, w in zip(have, want)):      # written so that NaN fails
                 problems.append(('c09:e2e-cli-not-at-weighted-mean', '%s of residue %s%d is written at %r (A); the heavy atoms the shipped mapping assigns to it, '
                                  'weighted by mapping weight x element mass, put it at %r' % (bead, resname, res[1], have, [round(w, 3) for w in want])))
                 break
